@@ -97,16 +97,32 @@ def gen(src, consts):
         guard, backs_off = 'if self._connection.is_closed or self.is_closed:', False
     else:
         raise ExtractError('Channel.close: the early-return guard changed')
-    needed = [guard, 'self.set_state(self.CLOSING)',
-              'self.stop_consuming()', 'except AMQPChannelError:', 'self.remove_consumer_tag()',
-              'reply_code=reply_code', 'reply_text=reply_text', 'connection_adapter=self._connection',
-              'finally:', 'self._inbound.clear()', 'self.set_state(self.CLOSED)']
-    pos = -1
-    for n in needed:
-        p = txt.find(n, pos + 1)
-        if p < 0:
-            raise ExtractError('Channel.close: %r missing or out of order' % n)
-        pos = p
+    outer = [st for st in strip_doc(h.body) if isinstance(st, ast.Try)]
+    if len(outer) != 1:
+        raise ExtractError('Channel.close: expected one try/finally')
+    fin = [ast.unparse(x) for x in outer[0].finalbody if not is_logging(x)]
+    if len(fin) != 2 or 'self._inbound.clear()' not in fin[0] or fin[1] != 'self.set_state(self.CLOSED)':
+        raise ExtractError('Channel.close: finally block changed: %r' % fin)
+    tb = [st for st in outer[0].body if not is_logging(st)]
+    if not (isinstance(tb[0], ast.If) and ('if ' + ast.unparse(tb[0].test) + ':') == guard):
+        raise ExtractError('Channel.close: the guard is not the first statement of the try')
+    if ast.unparse(tb[1]) != 'self.set_state(self.CLOSING)':
+        raise ExtractError('Channel.close: CLOSING is not set right after the guard')
+    inner = [st for st in tb[2:] if isinstance(st, ast.Try)]
+    if len(inner) != 1 or [ast.unparse(x) for x in inner[0].body if not is_logging(x)][:1] != ['self.stop_consuming()'] or \
+            [ast.unparse(hh.type) for hh in inner[0].handlers] != ['AMQPChannelError'] or \
+            [ast.unparse(x) for x in inner[0].handlers[0].body if not is_logging(x)] != ['self.remove_consumer_tag()']:
+        raise ExtractError('Channel.close: the guarded stop_consuming changed')
+    rpc_inside = [x for x in inner[0].body if 'self.rpc_request(specification.Channel.Close(' in ast.unparse(x)]
+    rpc_after = [x for x in tb[2:] if not isinstance(x, ast.Try) and 'self.rpc_request(specification.Channel.Close(' in ast.unparse(x)]
+    if len(rpc_inside) + len(rpc_after) != 1:
+        raise ExtractError('Channel.close: the Channel.Close request is missing or duplicated')
+    rpc = (rpc_inside + rpc_after)[0]
+    rt = ast.unparse(rpc)
+    if 'reply_code=reply_code' not in rt or 'reply_text=reply_text' not in rt:
+        raise ExtractError('Channel.close: reply code/text are not passed on')
+    sent_even_if_cancel_fails = bool(rpc_after)
+    judged_by_connection = 'connection_adapter=self._connection' in rt
     return ('namespace Amqp.Gen.Close\n'
             '/-- the whole body of Connection.close() runs under the (re-entrant) connection lock -/\n'
             'def connCloseUnderLock : Bool := %s\n'
@@ -116,9 +132,14 @@ def gen(src, consts):
             'def stopRepeatsUntilEmpty : Bool := %s\n'
             '/-- Channel.close() takes the forced path (sends nothing) unless the channel is OPEN; false: unless it is CLOSED -/\n'
             'def closeBacksOffUnlessOpen : Bool := %s\n'
+            '/-- the Channel.Close request follows the guarded stop_consuming (false: it sits inside that try and is skipped when a cancel fails) -/\n'
+            'def closeSentEvenIfCancelFails : Bool := %s\n'
+            '/-- the wait for CloseOk is judged against the connection only (errors parked on the closing channel cannot abort it) -/\n'
+            'def closeWaitJudgedByConnection : Bool := %s\n'
             '/-- a delivery whose tag has no callback yet waits for the channel lock (held by consume() until the callback is stored) -/\n'
             'def dispatchWaitsForLock : Bool := %s\n'
-            'end Amqp.Gen.Close\n' % (str(locked).lower(), str(copy).lower(), str(repeats).lower(), str(backs_off).lower(), str(waits).lower()))
+            'end Amqp.Gen.Close\n' % (str(locked).lower(), str(copy).lower(), str(repeats).lower(), str(backs_off).lower(), str(sent_even_if_cancel_fails).lower(),
+                                      str(judged_by_connection).lower(), str(waits).lower()))
 
 
 FILES = {'Close.lean': gen}
